@@ -1,4 +1,5 @@
 import Xo.Lemmas.LayoutRT
+import Xo.Lemmas.RefGraphOps
 /-! C03 — an object never writes outside the bytes reserved for it (property theorems only).
 Reference-free grammar (scalars, strings incl. capacity form, static and dynamic structs, N-D arrays of static or dynamic
 items, any axis order), nested to any depth; any buffer image `m`, any placement `off` with room. -/
@@ -172,5 +173,33 @@ example :
     t.WF ∧ Conf t v ∧ vsize t v = 120 := by
   refine ⟨by simp [Ty.WF, WFFields], ?_, by decide⟩
   simp [Conf, ConfFields, ConfItems, shapeMatches, prod]
+
+/-! ### objects that hold references (node model `Xo/Model/RefGraph.lean`, component `rg`) -/
+
+/-- **modifies only bytes inside the extent reserved for that object and the extents of objects it newly creates for its
+references**: in every state satisfying the reference-graph invariant (every reachable state: `C08_ref_history`) and for EVERY
+operation - construct, bind a reference to an existing object / to plain data or a foreign object (a new node is created) / to
+null, write a scalar through the handle or through a reference, copy-construct, update from another node, raw allocation,
+growth - there is at most one previously live region the operation may change (the node it is applied to; for a write through a
+reference: the referent), and EVERY other live region, node or raw allocation, keeps every byte - also when the buffer has to grow
+to make room for the new node -/
+theorem C03_ref_ops_frame (u : RG.Univ) (hu : RG.UWF u) (s : RG.St) (hi : RG.Inv u s) (op : RG.Op)
+    (hcap : (RG.step u s op).b.a.capacity < 2 ^ 62) :
+    ∃ w : Option RG.Ent, (∀ e0, w = some e0 → e0 ∈ s.live) ∧
+      ∀ e ∈ s.live, w ≠ some e → ∀ i, e.addr ≤ i → i < e.addr + e.size → (RG.step u s op).b.mem[i]? = s.b.mem[i]? :=
+  RG.step_frame hu hi op hcap
+
+/-- … and what it newly creates is placed by the allocator: after the operation all live regions - old and new - are pairwise
+disjoint and inside the storage (the allocator part of the invariant) -/
+theorem C03_ref_ops_disjoint (u : RG.Univ) (hu : RG.UWF u) (s : RG.St) (hi : RG.Inv u s) (op : RG.Op)
+    (hcap : (RG.step u s op).b.a.capacity < 2 ^ 62) :
+    (RG.regions (RG.step u s op)).Pairwise Alloc.Disjoint ∧
+    ∀ r ∈ RG.regions (RG.step u s op), r.1 + r.2 ≤ (RG.step u s op).b.mem.length := by
+  have h := RG.step_inv hu hi op hcap
+  refine ⟨h.a.disj, fun r hr => ?_⟩
+  have := h.a.inb r hr
+  have hm := h.mem
+  unfold Alloc.Buf.MemOK at hm
+  omega
 
 end Lay
